@@ -187,6 +187,8 @@ func ensureBuild(verbose bool) binaries {
 		return e1 == nil && e2 == nil
 	}
 	if ok() {
+		now := time.Now()
+		os.Chtimes(cacheDir, now, now) // least-recently-used order for pruneCache
 		return b
 	}
 	// one build at a time
@@ -335,6 +337,11 @@ func pruneCache(dir string, keep int) {
 	}
 	sort.Slice(l, func(i, j int) bool { return l[i].mod.After(l[j].mod) })
 	for i := keep; i < len(l); i++ {
+		// a build used within the last hour may belong to a check that is still running (its workers and its fresh-process
+		// replays start from these files): it stays unless the cache has grown far beyond its size
+		if time.Since(l[i].mod) < time.Hour && i < 4*keep {
+			continue
+		}
 		os.RemoveAll(filepath.Join(dir, l[i].name))
 	}
 }
